@@ -22,6 +22,9 @@ import (
 //   R-bounded-scanner  background stream readers do not use bufio.Scanner with its default 64 KiB token limit
 //   R-closed-recv      a receive from a channel that another function closes uses the comma-ok form
 //   R-lock-balanced    every mutex acquired on a client path is released on every path
+//   R-reconnect-paced  a loop repeating an HTTP exchange waits on a timer or consumes peer input on every trip
+//   R-once-complete    every path through a once-guarded publishing closure closes its latch
+//   R-send-vs-close    a send on a table channel that others close is made under the table's lock
 func init() { Registry["C07"] = checkC07 }
 
 func checkC07(c *Ctx) {
@@ -182,6 +185,7 @@ func checkC07(c *Ctx) {
 
 	c07ReconnectPaced(c, fns)
 	c07OnceComplete(c, fns)
+	c07SendVsClose(c, fns)
 
 	// ---- R-closed-recv
 	closedFields := map[string]bool{}
@@ -493,4 +497,75 @@ func c07OnceComplete(c *Ctx, fns []*ssa.Function) {
 	}
 	c.R.Min("R-once-complete", 1)
 	_ = n
+}
+
+// ---------------------------------------------------------------- R-send-vs-close
+// A channel kept in a table is closed by whoever removes it (the waiting call when it gives up, close() for all that
+// are left) — under the table's lock. A reader goroutine that looks the channel up, RELEASES the lock and then sends
+// can send on a channel that was closed in between: `send on closed channel` panics the reader and every later answer
+// is lost. The send must happen while the table's lock is still held (it is non-blocking, so that is cheap).
+func c07SendVsClose(c *Ctx, fns []*ssa.Function) {
+	ls := c.Locks()
+	// tables whose element channels are closed somewhere, and the lock held at those closes
+	type tinfo struct{ lock string }
+	tables := map[string]*tinfo{}
+	for _, cs := range closeSites(c, fns) {
+		tbl := ""
+		if strings.HasSuffix(cs.field, "[*]") {
+			tbl = strings.TrimSuffix(cs.field, "[*]")
+		} else {
+			// close(ch) where ch was made in this function and registered in a table
+			if mk, ok := unspill(cs.call.Common().Args[0]).(*ssa.MakeChan); ok {
+				for _, t := range registeredIn(c, mk, 0) {
+					tbl = t
+				}
+			} else {
+				for _, t := range registeredIn(c, unspill(cs.call.Common().Args[0]), 0) {
+					tbl = t
+				}
+			}
+		}
+		if tbl == "" {
+			continue
+		}
+		held := ls.At(cs.call.(ssa.Instruction))
+		for k, h := range held {
+			if h.Write && !strings.HasPrefix(k, "path:") {
+				if tables[tbl] == nil {
+					tables[tbl] = &tinfo{lock: k}
+				}
+			}
+		}
+	}
+	n := 0
+	for _, fn := range fns {
+		ir.EachInstr(fn, func(_ *ssa.BasicBlock, _ int, in ssa.Instruction) {
+			var chans []ssa.Value
+			switch x := in.(type) {
+			case *ssa.Select:
+				for _, st := range x.States {
+					if st.Dir == types.SendOnly {
+						chans = append(chans, st.Chan)
+					}
+				}
+			case *ssa.Send:
+				chans = append(chans, x.Chan)
+			}
+			for _, ch := range chans {
+				for tbl, ti := range tables {
+					if !fromTableLookup(ir.Unwrap(ch), tbl) {
+						continue
+					}
+					n++
+					held := ls.At(in)
+					_, ok := held[ti.lock]
+					c.R.Check(ok, "R-send-vs-close", "send on an entry of "+tbl+" in "+fname(fn), c.Pos(in.Pos()), "the table's lock "+ti.lock+" is held across lookup and send",
+						sprintf("%s looks a channel up in %s, releases %s and then sends on it, while the entry's owner (or close()) closes that channel under the lock: a send that loses the race panics with 'send on closed channel', the reader goroutine dies and every later answer is lost", fname(fn), tbl, ti.lock))
+				}
+			}
+		})
+	}
+	if n == 0 {
+		c.R.Hold("R-send-vs-close", "no send on a channel taken from a table whose channels are closed", "", "")
+	}
 }
